@@ -106,6 +106,14 @@ func init() {
 			RealStub: "real: cmd (cobra root command), YAML loading, Validate, RunDaemon actor group, hwmon discovery, controllers, monitors, curves, sensors, fans, persistence, util.SafeCmdExecution with real child processes; stub/model: libsensors stand-in, drivers/fans/temperatures (world), clock (synctest), scheduling at seams (kernel); EIO/EINVAL/timeout are returned by the seam, all other faults are produced on the real file or script",
 		},
 		PropertyPlan{
+			ID: "C11", Level: "exploration",
+			Families: []FamilyPlan{{Name: "c11", Quick: 320, Thorough: 12000, Chunk: 4, SeedTimeout: 200 * time.Second}},
+			Rule:     "each run = one generated YAML document (1-4 sensors, 1-8 curves incl. nested function curves over a DAG, 1-3 fans over a pool of real file/hwmon/cmd devices; both spellings of controlAlgorithm, step lists as list-of-maps and as map, pwmMap, limits). 35% are assembled from documented forms only; the others carry seeded defects (duplicate/missing ids, 0 or 2 backends, dangling sensor/curve references, self references, planted cycles of length 1..n, unsupported function type, function with no/omitted members, empty step list/map, controlAlgorithm: {}, zero gains, maxPwmChangePerCycle 0, pwmMap: {}). The text goes through the real `fan2go config validate` (own process); an independent validator over the YAML text (yaml.v3) decides well-formedness; accepted documents are booted by the real daemon (own process, 9 virtual s) with every registered curve evaluated under 6 sensor states. distinct = scenario hash; every document is non-trivial",
+			Probes:   []string{"accepted", "rejected", "accepted-and-booted", "documented-forms-documents", "curves-swept"},
+			Assume:   []string{"devices named by hwmon entries exist in the fake tree (binding failures are C17's subject)", "a decode failure that ends `config validate` with a panic trace counts as a rejection"},
+			RealStub: "real: cobra commands `config validate` and the root command, viper/mapstructure decoding, Validate, InitializeObjects, RunDaemon, curves, controllers; stub/model: libsensors stand-in, world devices, clock, scheduling at seams; the spec validator is the harness's own (yaml.v3)",
+		},
+		PropertyPlan{
 			ID: "C12", Level: "exploration",
 			Families: []FamilyPlan{{Name: "c12", Quick: 240, Thorough: 8000, Chunk: 10}},
 			Rule:     "each run = closed loop with full-range fans (min 0, max 255) and the direct algorithm, where the request equals the curve value; maps from the configuration (sparse, plateaus) or from the real sweep against a quantising driver; every cycle compares the write (or the decision not to write) with the reference nearest-supported-input computation. distinct = scenario hash; non-trivial = at least one write judged",
